@@ -1701,6 +1701,10 @@ class FortranReaderBase:
             return _is_fix_comment(
                 line, self._format.is_strict, self._format.f2py_enabled
             )
+        if self._include_omp_conditional_lines:
+            # A line with a conditional OpenMP sentinel is a statement for
+            # this reader, not a comment.
+            line, _ = self.replace_omp_sentinels(line, self._re_omp_sentinel)
         new_line, _, had_comment = self.handle_inline_comment(
             line, 0, buffer_comments_to_fifo=False
         )
